@@ -64,12 +64,6 @@ const (
 	DefaultRegistry string = "xpkg.crossplane.io"
 )
 
-const (
-	// identifierDelimeters is the set of valid OCI image identifier delimeter
-	// characters.
-	identifierDelimeters string = ":@"
-)
-
 func truncate(str string, num int) string {
 	t := str
 	if len(str) > num {
@@ -130,7 +124,14 @@ func ParseNameFromMeta(fs afero.Fs, path string) (string, error) {
 // not want to do that in cases where we are not pulling an image because it
 // breaks comparison with dependencies defined in a Configuration manifest.
 func ParsePackageSourceFromReference(ref name.Reference) string {
-	return strings.TrimRight(strings.TrimSuffix(ref.String(), ref.Identifier()), identifierDelimeters)
+	// NOTE: ref.String() is the reference as written. Cut the digest, then the
+	// tag (a colon in the last path component), rather than trimming
+	// ref.Identifier(): a reference can carry both, or neither.
+	s, _, _ := strings.Cut(ref.String(), "@")
+	if i := strings.LastIndex(s, ":"); i > strings.LastIndex(s, "/") {
+		s = s[:i]
+	}
+	return s
 }
 
 type metaPkg struct {
